@@ -5,6 +5,7 @@ import queue
 from vlib import core, prog, physics, h5oracle
 
 ASSUME = [
+    "one file in eight comes from a run interrupted by a real SIGINT at a random interrupt point (guarded hook); its final step is the one the hook's log implies (set-up: 0, inside a step: step+1)",
     "final step = ceil(steps*T) with T in single precision as the program takes it; the generator uses dyadic T or T with steps*T well away from an integer, so the oracle never takes sides on that rounding",
     "datasets the configuration does not use have zero records (/WakePotential without impedance); /RFKicks is per step and belongs to C19",
     "projections/moments use the quadrature the code base defines (Simpson weights delta/3*(1,4,2,...,1); moments by rectangle rule over the profile, normalised by the Simpson integral), evaluated by numpy in double on the *true* grid coordinates min+i*delta of the respective axis",
@@ -131,7 +132,21 @@ def run_case(args):
                     fh.write("%.4f %.4f\n" % (r.uniform(-3, 3) + P["qc"], r.uniform(-3, 3) + P["pc"]))
             run_opts["tracking"] = "trk.txt"
         run_opts["output"] = "out.h5"
-        res = prog.run_inovesa("rel", run_opts, wd, xdg, timeout=600)
+        env = None
+        steps_done = None
+        if i % 8 == 5:
+            # an interrupted run is a results file too: a real SIGINT through the guarded hook at a random interrupt point
+            rr = core.Rng("c10int", ctx.seed, i)
+            env = {"INOVESA_VERIF_SIGINT_AT": str(rr.randint(10, 40 + 18 * max(1, P["laststep"]))), "INOVESA_VERIF_POINTLOG": "points.log"}
+        res = prog.run_inovesa("rel", run_opts, wd, xdg, timeout=600, env=env)
+        if env:
+            from checks import c14
+            try:
+                inj = [p for p in c14.read_points(os.path.join(wd, "points.log")) if p[3]]
+            except OSError:
+                inj = []
+            if inj:
+                steps_done = c14.expected_step(inj[0][1], inj[0][2])
         out = dict(i=i, opts=run_opts, cmd=" ".join(res["argv"]))
         bad = prog.program_outcome_key(res)
         if bad:
@@ -145,7 +160,8 @@ def run_case(args):
         rep = h5oracle.FileReport()
         chk = dict(run_opts)
         chk["_has_wake"] = has_wake(run_opts)
-        h5oracle.check_file(h, chk, rep)
+        h5oracle.check_file(h, chk, rep, steps_done=steps_done)
+        out["interrupted"] = steps_done is not None
         ntrk = o.get("_tracking", 0)
         if h["/Particles/data"].shape[1:] != (ntrk, 2):
             rep.v("C10:particles_shape", "particle dataset does not have one row per tracked particle", shape=list(h["/Particles/data"].shape), particles=ntrk)
@@ -183,6 +199,8 @@ def run(ctx):
             continue
         ctx.sigs.add(res["sig"])
         ctx.ev("files_checked")
+        if res.get("interrupted"):
+            ctx.ev("interrupted_files_checked")
         ctx.ev("records_checked", res["records"])
         res["rep"].merge_into(ctx, w)
         ctx.sample(dict(options=res["opts"], records=res["records"]))
